@@ -68,6 +68,12 @@ def gen(rng, tier):
             ops = ops + ["R"] + second + ["N"] + second
             kind += "-reuse"
         out.append((line(depth, fl, ops), {"kind": kind, "reuse": reuse}))
+    # an invalid length argument (len < -1) is refused with the size error, leaves the caller's locale alone and keeps
+    # nothing; the parser is reusable after a reset
+    for ln in (-2, -3, -100, -2147483647, -2147483648):
+        second = ["P" + hx(b"[1.5]"), "P" + hx(b" ")]
+        out.append((line(32, rng.choice([0, 1]), ["Y%d" % ln, "R"] + second + ["N"] + second), {"kind": "bad-length", "reuse": True}))
+        out.append((line(32, 0, ["LT", "Y%d" % ln, "R"] + second + ["N"] + second + ["LC"]), {"kind": "bad-length-locale", "reuse": True}))
     # the input size guard: a NUL-terminated input (len = -1) of INT32_MAX bytes or more is refused with the
     # size error before anything is read (the int end-position counter would overflow); small inputs of the same
     # shapes run normally.  (2 GiB buffers: only where the memory is there.)
@@ -114,6 +120,10 @@ def oracle(line_, meta, impl):
     if len(steps) != len(ops):
         return ("malformed", impl[:100])
     for op, st in zip(ops, steps):
+        if op[0] == "Y":
+            if st != ("size 0 - loc1",):
+                return ("bad-length", "a call with length %s: expected the size error, end 0, no value, caller's locale untouched; got %r" % (op[1:], st))
+            continue
         if op[0] in "PZB":
             if st == ("skipped",):
                 continue
@@ -134,7 +144,7 @@ def oracle(line_, meta, impl):
         # ... R second... N second...: the reset parser must behave exactly like the new one
         i_r = max(i for i, o in enumerate(ops) if o == "R")
         i_n = max(i for i, o in enumerate(ops) if o == "N")
-        a, b = steps[i_r + 1:i_n], steps[i_n + 1:]
+        a, b = [x for x in steps[i_r + 1:i_n] if x != ("locale",)], [x for x in steps[i_n + 1:] if x != ("locale",)]
         if a != b:
             return ("reset-differs-from-new", "after reset: %r, new parser: %r" % (a, b))
     return None
